@@ -44,6 +44,9 @@ pub enum SStep {
     /// the server process forks; the child inherits the open descriptors, never uses them, and
     /// lives on (closing an inherited connection no longer hangs it up or deregisters it from epoll)
     Fork,
+    /// the next epoll_wait reports this client's connection readable although nothing is (a spurious
+    /// readiness notification: the receive then fails with EAGAIN)
+    SpuriousIn(usize),
 }
 
 #[derive(Clone, Debug)]
@@ -103,6 +106,7 @@ impl SStep {
             SStep::FaultWriteEintr(c) => a(vec![json::s("fault_write_eintr"), json::u(*c)]),
             SStep::Drain => a(vec![json::s("drain")]),
             SStep::Fork => a(vec![json::s("fork")]),
+            SStep::SpuriousIn(c) => a(vec![json::s("spurious_in"), json::u(*c)]),
         }
     }
     pub fn from_json(j: &J) -> Result<SStep, String> {
@@ -129,6 +133,7 @@ impl SStep {
             "fault_write_eintr" => SStep::FaultWriteEintr(n(1)?),
             "drain" => SStep::Drain,
             "fork" => SStep::Fork,
+            "spurious_in" => SStep::SpuriousIn(n(1)?),
             _ => return Err(format!("unknown step {}", k)),
         })
     }
@@ -220,6 +225,14 @@ pub struct Client {
     pub reset_seen: bool,
     pub accept: Accept,
     pub read_fault: bool,
+    /// server-side receives on this connection that failed with EAGAIN / EINTR
+    pub read_faults_fired: usize,
+    /// one entry per such failure: None until the first moment afterwards at which the epoll
+    /// descriptor was quiet and this client's socket writable; then the number of bytes the
+    /// server had written to the client by that moment
+    pub fault_marks: Vec<Option<usize>>,
+    /// some server-side write on this connection failed with something other than EINTR
+    pub any_srv_write_error: bool,
     pub write_fault: bool,
     /// a server-side write on this connection failed (not EINTR): the client can no longer be written to
     pub srv_write_failed: bool,
@@ -621,6 +634,9 @@ impl ServerSim {
                                     reset_seen: false,
                                     accept: Accept::NotYet,
                                     read_fault: false,
+                                    read_faults_fired: 0,
+                                    fault_marks: Vec::new(),
+                                    any_srv_write_error: false,
                                     write_fault: false,
                                     srv_write_failed: false,
                                     failed_in_flush_while_owed: false,
@@ -833,6 +849,21 @@ impl ServerSim {
                 self.drain(st)?;
                 true
             }
+            SStep::SpuriousIn(c) => match self.clients.get_mut(c) {
+                Some(cl) if cl.accept == Accept::Served && !cl.closed => {
+                    let conn = cl.conn;
+                    cl.read_fault = true;
+                    world::with(|w| {
+                        if !w.spurious_in.contains(&conn) {
+                            w.spurious_in.push(conn);
+                        }
+                    });
+                    st.fault("F-spurious-readiness");
+                    self.sig.u(16);
+                    true
+                }
+                _ => false,
+            },
             SStep::Fork => {
                 let open = self.stream_fds();
                 world::with(|w| w.fork_inherit());
@@ -967,6 +998,22 @@ impl ServerSim {
                     500 => {
                         if !cl.read_fault {
                             return Err(self.v("unsolicited-500", format!("client {} received a 500 although no read fault was injected on its connection", c)));
+                        }
+                        // lost wake-up for server-generated output: this reply starts at stream offset
+                        // `parsed`; if, after EVERY failed receive so far, there was an idle moment
+                        // (epoll quiet, socket writable) at which the server had not yet written it,
+                        // the server was sitting on unsent output without signalling
+                        if !cl.fault_marks.is_empty() && cl.fault_marks.iter().all(|m| matches!(m, Some(w) if *w <= parsed)) {
+                            return Err(self.v(
+                                "output-held-back",
+                                format!(
+                                    "client {}: the 500 for a failed receive starts at output offset {}, but the epoll descriptor was quiet (and the client's socket writable) after the failure with only {:?} byte(s) written",
+                                    c, parsed, cl.fault_marks
+                                ),
+                            ));
+                        }
+                        if !cl.fault_marks.is_empty() {
+                            self.clients.get_mut(&c).unwrap().fault_marks.remove(0);
                         }
                     }
                     503 => {
@@ -1222,9 +1269,17 @@ impl ServerSim {
                     }
                 }
                 LogEntry::Read { res: Ok(_), .. } => progress = true, // EOF observed: state change
-                LogEntry::Read { res: Err(_), .. } => {
+                LogEntry::Read { conn, res: Err(e), .. } => {
                     st.fault("F-empty:server-recv-error");
                     progress = true;
+                    if *e == libc::EAGAIN || *e == libc::EINTR {
+                        if let Some(cid) = self.conn_to_client.get(*conn).cloned() {
+                            if let Some(cl) = self.clients.get_mut(&cid) {
+                                cl.read_faults_fired += 1;
+                                cl.fault_marks.push(None);
+                            }
+                        }
+                    }
                 }
                 LogEntry::Write { res: Ok(n), len, .. } => {
                     if *n > 0 {
@@ -1244,6 +1299,7 @@ impl ServerSim {
                             let owed = self.outstanding.iter().any(|o| o.1 == *cid);
                             let in_flush = self.in_flush;
                             if let Some(cl) = self.clients.get_mut(cid) {
+                                cl.any_srv_write_error = true;
                                 if *e != libc::EAGAIN {
                                     cl.srv_write_failed = true;
                                     if in_flush && owed {
@@ -1535,6 +1591,25 @@ impl ServerSim {
 
     fn after_step(&mut self, st: &mut Stats) -> Result<(), Violation> {
         st.state(self.abstract_state());
+        // idle moments after a failed receive: whatever reply the server queued for it (a 500, if it
+        // sends one at all) could have been written by now
+        if self.clients.values().any(|c| c.fault_marks.iter().any(|m| m.is_none())) && !self.readable() {
+            for cl in self.clients.values_mut() {
+                if cl.fault_marks.iter().any(|m| m.is_none()) {
+                    let (written, writable) = world::with(|w| {
+                        let open = w.conns[cl.conn].server_fd.is_some();
+                        (w.conns[cl.conn].srv_written as usize, open && w.client_poll_peer_writable(cl.conn))
+                    });
+                    if writable {
+                        for m in cl.fault_marks.iter_mut() {
+                            if m.is_none() {
+                                *m = Some(written);
+                            }
+                        }
+                    }
+                }
+            }
+        }
         if self.flags.well_behaved && !self.killed {
             if !self.all_clean() {
                 self.out_of_scope = true;
